@@ -675,6 +675,28 @@ class Item:
                      "      let %s = &%s[vx_i];/*@body*/\n      if !(" % (var, recv, p, recv), "R3-all")
         self.rewrite(be, semi + 1, ") { %s = false; break; }\n      vx_i = vx_i + 1;\n    }" % var, "R3-all")
 
+    def r3_any_expr(self, fn, k):
+        """the k-th expression `RECV.iter().any(|P| BODY)` of fn (RECV a slice / Vec expression; BODY without `return` / `?`), in any
+        expression position  ==>  the definition of Iterator::any over a slice (true at the first element whose BODY holds):
+        { let vx_s = RECV; let mut vx_r = false; let mut vx_i = 0; while vx_i < vx_s.len() { let P = &vx_s[vx_i]; let vx_b = BODY;
+          if vx_b { vx_r = true; break; } vx_i += 1; } vx_r }        (RECV and BODY stay in place; names get the suffix k for k > 1)"""
+        k0, _, bo, end, _ = self.fn_span(fn)
+        hits = list(re.finditer(r"\.\s*iter\s*\(\s*\)\s*\.\s*any\s*\(", self.m[bo:end]))
+        if len(hits) < k:
+            raise Undecided("LOST-ANCHOR: R3 any-expr #%d in fn %s of %s" % (k, fn, self.where()))
+        h = hits[k - 1]
+        par = bo + h.end() - 1
+        p, bs, be, close = self._closure_after(par)
+        if re.search(r"\breturn\b|\?", self.m[bs:be]):
+            raise Undecided("R3 any-expr: the closure body leaves early (return / ?)")
+        s0 = self._chain_start(bo + h.start())
+        sfx = "" if k == 1 else str(k)
+        self.rewrite(s0, s0, "{ let vx_s%s = " % sfx, "R3-any-expr")
+        self.rewrite(bo + h.start(), bs, ";\n        let mut vx_r%s = false;\n        let mut vx_i%s: usize = 0;/*@pre*/\n        while vx_i%s < vx_s%s.len()\n        /*@loop*/\n        {\n          let %s = &vx_s%s[vx_i%s];/*@body*/\n          let vx_b%s = "
+                     % (sfx, sfx, sfx, sfx, p, sfx, sfx, sfx), "R3-any-expr")
+        self.rewrite(be, close + 1, ";\n          if vx_b%s { vx_r%s = true; break; }/*@tail*/\n          vx_i%s = vx_i%s + 1;\n        }\n        vx_r%s }"
+                     % (sfx, sfx, sfx, sfx, sfx), "R3-any-expr")
+
     def r3_quantifier_path_expr(self, fn, k):
         """tail expression `RECV.iter().all(PATH)` / `RECV.iter().any(PATH)` with PATH a function path (no closure)  ==>  the adapter's
         definition, `all` or `any` as READ from the code:
